@@ -101,6 +101,43 @@ Check c04_chain_newest_first : forall f ch,
   is_chain f ch -> collect_sections f = WOk (map (fun p => s_sec (snd p)) ch).
 Print Assumptions c04_chain_newest_first.
 
+(** EVERY file: following /Prev from startxref there is a duplicate-free path ch that ends at a section
+    without /Prev, or at a /Prev pointing back into the path (cycle) — the loop then returns exactly the
+    sections of ch, newest first, each once — or at an offset where nothing parses — then it returns Err *)
+Theorem c04_walk_shape : forall f,
+  exists ch stop,
+    path_from (f_at f) (Some (f_start f)) ch stop /\ NoDup (map fst ch) /\
+    match stop with
+    | None => collect_sections f = WOk (map (fun p => s_sec (snd p)) ch)
+    | Some b =>
+        (In b (map fst ch) /\ collect_sections f = WOk (map (fun p => s_sec (snd p)) ch))
+        \/ (mfind b (f_at f) = None /\ collect_sections f = WErr)
+    end.
+Proof. exact walk_shape_lemma. Qed.
+Check c04_walk_shape : forall f,
+  exists ch stop,
+    path_from (f_at f) (Some (f_start f)) ch stop /\ NoDup (map fst ch) /\
+    match stop with
+    | None => collect_sections f = WOk (map (fun p => s_sec (snd p)) ch)
+    | Some b =>
+        (In b (map fst ch) /\ collect_sections f = WOk (map (fun p => s_sec (snd p)) ch))
+        \/ (mfind b (f_at f) = None /\ collect_sections f = WErr)
+    end.
+Print Assumptions c04_walk_shape.
+
+(** ... and whatever was collected (any file, cycles included), the loop-carried table is the merge of
+    it and the newest collected section that mentions n wins *)
+Theorem c04_any_file_newest_collected_wins : forall f l,
+  collect_sections f = WOk l ->
+  read_xref f = WOk (file_table (rev l)) /\
+  forall n, lookup (file_table (rev l)) n = loc_of (spec_lookup (map rev_of_section (rev l)) n).
+Proof. exact any_file_newest_collected_wins_lemma. Qed.
+Check c04_any_file_newest_collected_wins : forall f l,
+  collect_sections f = WOk l ->
+  read_xref f = WOk (file_table (rev l)) /\
+  forall n, lookup (file_table (rev l)) n = loc_of (spec_lookup (map rev_of_section (rev l)) n).
+Print Assumptions c04_any_file_newest_collected_wins.
+
 (** the order ISO 32000-1 7.5.8.4 prescribes on such a chain: each update's section, then the stream
     its trailer names with /XRefStm, then the /Prev chain *)
 Theorem c04_iso_sections_chain : forall f ch,
